@@ -64,6 +64,8 @@ def padded_env(n):
     e = dict(os.environ)
     e["A1V_PAD"] = "x" * n
     e["A1V_PAD2"] = "y" * (n // 3 + 1)
+    if n >= 7000:      # the big variant also changes locale and time zone (decimal point, time stamps)
+        e.update(LC_ALL="de_DE.UTF-8", LANG="de_DE.UTF-8", LC_NUMERIC="de_DE.UTF-8", TZ="Pacific/Kiritimati")
     return e
 
 
@@ -135,16 +137,16 @@ def text_has_nested_of_constraint(t1):
 
 OPTION_SETS = [
     ["-pdu=all", "-fcompound-names"],
-    ["-pdu=auto"],
+    ["-pdu=auto", "-fcompound-names"],
     ["-pdu=all", "-fcompound-names", "-findirect-choice"],
-    ["-pdu=all", "-no-gen-PER"],
+    ["-pdu=all", "-fcompound-names", "-no-gen-PER"],
     ["-pdu=all", "-fcompound-names", "-no-gen-OER"],
-    ["-pdu=auto", "-no-gen-PER", "-no-gen-OER", "-fwide-types"],
-    ["-pdu=all", "-gen-PER", "-gen-OER", "-fwide-types"],
+    ["-pdu=auto", "-fcompound-names", "-no-gen-PER", "-no-gen-OER", "-fwide-types"],
+    ["-pdu=all", "-fcompound-names", "-gen-PER", "-gen-OER", "-fwide-types"],
     ["-pdu=all", "-fcompound-names", "-fincludes-quoted", "-fno-include-deps"],
     ["-pdu=all", "-fno-constraints"],
     ["-pdu=all", "-fcompound-names", "-funnamed-unions", "-fline-refs"],
-    ["-pdu=all", "-gen-autotools", "-no-gen-example"],
+    ["-pdu=all", "-fcompound-names", "-gen-autotools", "-no-gen-example"],
     ["-fcompound-names", "-findirect-choice", "-fbless-SIZE"],
 ]
 
@@ -635,10 +637,10 @@ def multi_modules(rng, size):
 def main(tier):
     run = Run("C12", tier)
     # findings of this property: the assembled known_findings.json, or (worktree not yet merged) the fragment
-    if not run.findings:
-        frag = os.path.join(VERIF, "findings.d", "C12.json")
-        if os.path.exists(frag):
-            run.findings = [f for f in json.load(open(frag)) if f.get("status") == "open"]
+    frag = os.path.join(VERIF, "findings.d", "C12.json")
+    if os.path.exists(frag):
+        have = {f.get("id") for f in run.findings}
+        run.findings = list(run.findings) + [f for f in json.load(open(frag)) if f.get("status") == "open" and f.get("id") not in have]
     rng = Rng(run.seed)
     quick = tier == "quick"
     # 1. proofs ------------------------------------------------------------
